@@ -308,6 +308,92 @@ def gen_index(root):
     return rel, "engine/src/ast/index_expr/verif_kani/extracted.rs", "\n".join(out), {"functions": seen}
 
 
+TAILS = [
+    # (source file, impl regex, fn regex, exact first statement (normalised), signature of the lifted tail, dest module dir)
+    ("engine/src/ast/mod.rs", r"(?m)^impl<'i,\s*'s>\s+LexWith<'i,\s*&FilterParser<'s>>\s+for\s+FilterAst\s*\{",
+     r"fn\s+lex_with\s*\(\s*input\s*:\s*&'i\s+str\s*,\s*parser\s*:\s*&FilterParser<'s>\s*\)\s*->\s*LexResult<'i,\s*Self>\s*\{",
+     "let(op,input)=LogicalExpr::lex_with(input,parser)?;",
+     "pub(crate) fn filter_ast_lex_with__tail<'i, 's>(parser: &FilterParser<'s>, op: LogicalExpr, input: &'i str) -> LexResult<'i, FilterAst>",
+     "engine/src/ast"),
+    ("engine/src/ast/mod.rs", r"(?m)^impl<'i,\s*'s>\s+LexWith<'i,\s*&FilterParser<'s>>\s+for\s+FilterValueAst\s*\{",
+     r"fn\s+lex_with\s*\(\s*input\s*:\s*&'i\s+str\s*,\s*parser\s*:\s*&FilterParser<'s>\s*\)\s*->\s*LexResult<'i,\s*Self>\s*\{",
+     "let(op,rest)=IndexExpr::lex_with(input.trim(),parser)?;",
+     "pub(crate) fn filter_value_ast_lex_with__tail<'i, 's>(input: &'i str, parser: &FilterParser<'s>, op: IndexExpr, rest: &'i str) -> LexResult<'i, FilterValueAst>",
+     "engine/src/ast"),
+    ("engine/src/ast/logical_expr.rs", r"(?m)^impl<'i,\s*'s>\s+LexWith<'i,\s*&FilterParser<'s>>\s+for\s+QuantifierArgExpr\s*\{",
+     r"fn\s+lex_with\s*\(\s*input\s*:\s*&'i\s+str\s*,\s*parser\s*:\s*&FilterParser<'s>\s*\)\s*->\s*LexResult<'i,\s*Self>\s*\{",
+     "let(arg,rest)=FunctionCallArgExpr::lex_with(input,parser)?;",
+     "pub(crate) fn quantifier_arg_lex_with__tail<'i, 's>(input: &'i str, parser: &FilterParser<'s>, arg: FunctionCallArgExpr, rest: &'i str) -> LexResult<'i, QuantifierArgExpr>",
+     "engine/src/ast/logical_expr"),
+]
+
+
+def first_statement_end(body):
+    """index just after the first top-level `;` of a function body"""
+    depth = 0
+    i = 0
+    n = len(body)
+    while i < n:
+        c = body[i]
+        if body.startswith("//", i):
+            j = body.find("\n", i)
+            i = n if j < 0 else j
+            continue
+        if c == '"':
+            i += 1
+            while i < n and body[i] != '"':
+                i += 2 if body[i] == "\\" else 1
+            i += 1
+            continue
+        if c in "({[":
+            depth += 1
+        elif c in ")}]":
+            depth -= 1
+        elif c == ";" and depth == 0:
+            return i + 1
+        i += 1
+    raise LostAnchor("no first statement")
+
+
+def gen_tails(root):
+    """The three type checks that follow a recursive-descent call (`FilterAst` root must be
+    Bool, `FilterValueAst` must be free of [*], a quantifier argument must be Array(Bool)) all
+    have the shape `let (x, rest) = <Callee>::lex_with(..)?; <check on x>`.  The callee is a
+    `LexWith` trait method that Kani cannot stub and that is intractable to run; so everything
+    AFTER the first statement is lifted, text unchanged, into a function whose parameters are
+    the function's parameters plus the two variables that statement binds.  Dropped: exactly
+    that first statement (compared verbatim)."""
+    outs = {}
+    seen = []
+    for rel, impl_re, fn_re, first_norm, sig, destdir in TAILS:
+        src = open(os.path.join(root, rel), encoding="utf-8").read()
+        _sig, body = find_fn_in_impl(src, impl_re, fn_re)
+        k = first_statement_end(body)
+        # strip comments of the first statement before comparing
+        if norm(re.sub(r"//[^\n]*", "", body[:k])) != first_norm:
+            raise LostAnchor(f"first statement of {sig.split('(')[0].split()[-1]} changed: {body[:k].strip()!r}")
+        tail = body[k:]
+        # the one rewrite: `Self` -> the implementing type (a free function has no Self)
+        self_ty = re.search(r"->\s*LexResult<'i,\s*(\w+)>", sig).group(1)
+        tail, n_self = re.subn(r"\bSelf\b", self_ty, tail)
+        dest = destdir + "/verif_kani/extracted_tails.rs"
+        outs.setdefault(dest, []).append(f"/// everything after the first statement of the `lex_with` in {rel} (rewrite `Self` -> `{self_ty}`: {n_self} occurrences)\n{sig} {{{tail}}}\n")
+        seen.append(sig.split("(")[0].split()[-1])
+    info = {}
+    for dest, chunks in outs.items():
+        head = ("// GENERATED on every run by /verif/kani/extract_arms.py (gen_tails) - do not edit.\n"
+                "#![allow(unused_variables, unused_mut, dead_code, unreachable_code, unused_imports, clippy::all)]\n"
+                "use super::super::*;\nuse crate::ast::parse::FilterParser;\nuse crate::ast::function_expr::FunctionCallArgExpr;\n"
+                "use crate::ast::index_expr::IndexExpr;\nuse crate::ast::logical_expr::LogicalExpr;\n"
+                "use crate::lex::{LexErrorKind, LexResult, LexWith};\nuse crate::types::{GetType, Type, TypeMismatchError};\n")
+        text = head + "\n".join(chunks)
+        os.makedirs(os.path.dirname(os.path.join(root, dest)), exist_ok=True)
+        with open(os.path.join(root, dest), "w") as f:
+            f.write(text)
+        info[dest] = {"tails": [c.split("fn ")[1].split("<")[0] for c in chunks], "bytes": len(text)}
+    return info
+
+
 def generate(root):
     """Write both extracted modules under root; returns info for the evidence file."""
     info = {}
@@ -317,6 +403,7 @@ def generate(root):
         with open(os.path.join(root, dest), "w") as f:
             f.write(text)
         info[dest] = dict(meta, source=rel, bytes=len(text))
+    info.update(gen_tails(root))
     return info
 
 
